@@ -1,0 +1,27 @@
+//go:build verif
+
+// Contracts for gzv (contract-based deductive verification, /verif). Comment-only file.
+package serverinterceptors
+
+// C04 zRPC server: the handler runs under WithTimeout(caller's ctx, per-method or default timeout); the timeout arm
+// returns (nil, status error) and never the handler's partial result.
+//@ func getTimeoutByUnaryServerInfo
+//@   property C04
+//@   ensures result == ite(inDom(timeouts, method), timeouts[method], defaultTimeout)
+//@   modifies nothing
+
+//@ func UnaryTimeoutInterceptor closure 0
+//@   property C04
+//@   flag private_channels noheap:cancel nopanic:cancel
+//@   results r0, r1
+//@   ghost at entry: ctx0 = ctx
+//@   ghost at entry: armT = false
+//@   ghost at after Done#0: armT = true
+//@   call WithTimeout#0: assert arg_parent == ctx0 && arg_timeout == ite(inDom(timeouts, info.FullMethod), timeouts[info.FullMethod], timeout)
+//@   ensures implies(armT, r0 == nil)
+
+//@ func UnaryTimeoutInterceptor closure 1
+//@   property C04
+//@   flag private_channels callbacks_noheap
+//@   call handler#0: assert arg0 == ctx && arg1 == req
+//@   ensures_panic false
